@@ -36,7 +36,7 @@ def _lattice(seed):
 
 def _norm_label(f):
     lab = f['label']
-    if lab in ('structure', 'conversion-raised'):
+    if lab in ('structure', 'conversion-raised', 'unreadable-file'):
         lab += ':' + re.sub(r'[-+]?\d+(\.\d+)?', 'N', f['detail'])[:70].strip().replace(' ', '-')
     return lab
 
